@@ -80,7 +80,7 @@ def plan(ctx):
     jobs = [
         # ---- osmium::io::File: exhaustive design checks (no export), then the export configurations (same invariants)
         dict(module="FileSpec", cfg="MCFileSpecFmt%s.cfg" % T, workers=3,
-             label="File: format part = every sequence of <= 3 tokens over %d tokens x <= 1 option x %d name classes x both constructors" % ((7, 5) if q else (16, 6))),
+             label="File: format part = every sequence of <= 3 tokens over %d tokens x <= 1 option x %d name classes x both constructors" % ((7, 6) if q else (16, 6))),
         dict(module="FileSpec", cfg="MCFileSpecOpts%s.cfg" % T, workers=3,
              label="File: 7 heads x every sequence of <= 3 option parts over %d parts (history, add_metadata spellings, overrides, empty part)" % (8 if q else 24)),
         dict(module="FileSpec", cfg="MCFileSpecSet%s.cfg" % T, workers=2, cov=FILE_ACTIONS,
@@ -91,7 +91,7 @@ def plan(ctx):
              label="File: every name of <= 4 '.'-separated tokens over %d tokens (keywords, unknown, empty, URL stems), no format string: "
                    "I => A on the domain, check() verdict, termination; exported" % (12 if q else 15)),
         dict(module="FileSpec", cfg="GenFileSpecFmt%s.cfg" % T, kind="file", tag="F", workers=2,
-             label="File export: every format part of <= 3 tokens over 7 tokens x %s" % ("0/1 option x 4 name classes x both constructors" if q else "<= 1 option of 5 x 6 name classes x both constructors")),
+             label="File export: every format part of <= 3 tokens over 7 tokens x %s" % ("0/1 option x 5 name classes x both constructors" if q else "<= 1 option of 5 x 6 name classes x both constructors")),
         dict(module="FileSpec", cfg="GenFileSpecOpts%s.cfg" % T, kind="file", tag="O", workers=2,
              label="File export: 7 heads x every sequence of <= %d option parts over 12 parts" % (2 if q else 3)),
         dict(module="FileSpec", cfg="GenFileSpecSet%s.cfg" % T, kind="file", tag="S", workers=2,
